@@ -25,6 +25,8 @@ import (
 var c17Days = []sm.Date{
 	{Y: 2021, M: 3, D: 10},  // ordinary
 	{Y: 2024, M: 3, D: 1},   // day after a leap day
+	{Y: 2024, M: 4, D: 1},   // the day after the clocks went forward in Europe/Berlin (the clock is expressed in that zone: clidrv)
+	{Y: 2024, M: 10, D: 27}, // the day the clocks go back there (25 hours long)
 	{Y: 2021, M: 1, D: 31},  // month end
 	{Y: 2023, M: 2, D: 28},  // Feb 28, common year
 	{Y: 2024, M: 2, D: 28},  // Feb 28, leap year
@@ -80,7 +82,7 @@ func c17DayCount(t fw.Tier) int {
 	if t == fw.Thorough {
 		return len(c17Days)
 	}
-	return 2
+	return 4
 }
 
 func init() {
